@@ -97,6 +97,11 @@ def directed():
         ('fullstack', _chain(_w(1, 'mapper', s, 'same'),
                              {'op': 'fullstack', 'id': 2, 'n': 2, 'bases': [_w(21, 'mapper', S, 'same'), _w(22, 'mapper', S, 'same')]},
                              _w(3, 'mapper', S, 'same'))),
+        # the apply path ends in a multi-input worker followed by a nested group without any apply-mode actor
+        ('ensemble-then-train-only-group', {'op': 'chain', 'left': _chain(
+            _w(1, 'mapper', s, 'same'),
+            {'op': 'fullstack', 'id': 2, 'n': 2, 'bases': [_w(21, 'mapper', S, 'same'), _w(22, 'mapper', S, 'same')]}),
+            'right': _chain(_w(3, 'label', None, None, S), _w(4, 'train', None, S))}),
     ]
 
 
